@@ -5,7 +5,7 @@ import os, random, subprocess, time
 from . import vlib
 from .vlib import log
 
-UN = ["then", "uerr", "udone", "md", "dao", "uns", "tag", "src", "era"]
+UN = ["then", "uerr", "udone", "md", "dao", "uns", "tag", "src", "era", "iv", "dfr", "alc"]
 BIN = ["lv", "le", "ld", "seq", "fin", "wa", "sw"]
 
 
@@ -34,8 +34,12 @@ class Gen:
             return f"(just {self.r.randint(0, 9)})"
         if k < 0.75:
             return f"(jerr {self.r.randint(1, 9)})"
-        if k < 0.82:
+        if k < 0.80:
             return "(jdone)"
+        if k < 0.84:
+            return f"(jfrom {self.r.randint(0, 9)})"
+        if k < 0.87:
+            return f"(jvod {self.r.randint(0, 1)})"
         return f"(argv {self.r.randint(0, 5)})"
 
     def expr(self, depth=0, in_let=False):
